@@ -27,7 +27,7 @@ func init() {
 				"the answer flag, each written to its own byte range (no overlapping shifts). R8: every rule-list engine constructor " +
 				"receives the empty cache or a result cache created for it alone, once per engine.",
 			NotCovered: "equality of verdicts with and without caches over all list contents; client-specific modifiers ($client), which the property excludes.",
-			Rules: map[string]string{"C12-R21": "hash-prefix refresh: once Storage.Reset has published the new hash set, every path to a return clears the result cache (no early return between the two)", "C12-R20": "filterstorage forGroup and forClient hand out a composite filter built in this call from the lists that are current now (composite.New on every path): no filter assembled earlier, with the lists and result caches of an older refresh, is kept and handed out again", "C12-R19": "hashprefix.FilterRequest looks its verdict up and stores it under one cache key, computed from the request's own host, type and class", "C12-R17": "the clone functions of dnsmsg put no object of the source message into the clone (every option, record and slice is taken from a pool or copied)", "C12-R16": "hash-prefix storage and filter publish new state only after a successful load (shared with C13-R3)", "C12-R15": "an answer served from a result cache has the response code of the answer that was stored (SetReply resets it)", "C12-RC": "class rules (error chains, shadowed results, character classes, crossed arguments, pool constructors, array pools, loop completeness, loop-carried buffers, replacing setters, complete clones, Grow arithmetic, pooled-buffer escape, sorted searches, fresh decode targets, per-iteration objects, whole-message copies, codec guards) over the packages this property rests on", "C12-R14": "serviceblock.Filter.Refresh computes the new service map from the new index alone (never reads the map it replaces)", "C12-R13": "slices of a (possibly cached, shared) urlfilter.DNSResult are only read or copied, never stored or appended to", "C12-R1": "swap+clear in one write-locked section", "C12-R2": "query path read-holds the lock",
+			Rules: map[string]string{"C12-R22": "filterstorage.resetRuleLists installs exactly the lists it was given: it never reads the map it replaces and never writes into its argument (a list kept from the previous refresh because it looks unchanged keeps its old engine and result cache)", "C12-R21": "hash-prefix refresh: once Storage.Reset has published the new hash set, every path to a return clears the result cache (no early return between the two)", "C12-R20": "filterstorage forGroup and forClient hand out a composite filter built in this call from the lists that are current now (composite.New on every path): no filter assembled earlier, with the lists and result caches of an older refresh, is kept and handed out again", "C12-R19": "hashprefix.FilterRequest looks its verdict up and stores it under one cache key, computed from the request's own host, type and class", "C12-R17": "the clone functions of dnsmsg put no object of the source message into the clone (every option, record and slice is taken from a pool or copied)", "C12-R16": "hash-prefix storage and filter publish new state only after a successful load (shared with C13-R3)", "C12-R15": "an answer served from a result cache has the response code of the answer that was stored (SetReply resets it)", "C12-RC": "class rules (error chains, shadowed results, character classes, crossed arguments, pool constructors, array pools, loop completeness, loop-carried buffers, replacing setters, complete clones, Grow arithmetic, pooled-buffer escape, sorted searches, fresh decode targets, per-iteration objects, whole-message copies, codec guards) over the packages this property rests on", "C12-R14": "serviceblock.Filter.Refresh computes the new service map from the new index alone (never reads the map it replaces)", "C12-R13": "slices of a (possibly cached, shared) urlfilter.DNSResult are only read or copied, never stored or appended to", "C12-R1": "swap+clear in one write-locked section", "C12-R2": "query path read-holds the lock",
 				"C12-R3": "generalised refresh discipline (F9)", "C12-R4": "no per-request data in shared caches (F8)", "C12-R5": "custom engine staleness gate", "C12-R9": "caches store clones and hand out clones (shared with C07-R4)",
 				"C12-R10": "custom rules received from the backend are stamped with the time of reception (time.Now), the only stamp that is newer than every cached engine",
 				"C12-R6":  "collision checks", "C12-R7": "cache key dependence and injective packing", "C12-R8": "one result cache per engine"},
@@ -35,6 +35,9 @@ func init() {
 }
 
 func runC12(c *an.Ctx) {
+	// ---- R22: a refresh installs the new rule lists as they are
+	c.Floor("C12-R22", 1)
+	c12InstallsAsGiven(c, "C12-R22")
 	// ---- R21: nothing returns between publishing the new hashes and clearing the result cache
 	c.Floor("C12-R21", 1)
 	c12ClearAfterReset(c, "C12-R21")
@@ -47,7 +50,7 @@ func runC12(c *an.Ctx) {
 	c12OneKeyPerRequest(c, "C12-R19")
 	// ---- R17: a response cloned out of a cache shares no option object with the cached message
 	if n := sharedCloneOwnsItsParts(c, "C12-R17", func(k string) bool {
-		return strings.HasPrefix(k, "dnsmsg.(*") && (strings.Contains(k, "Cloner).clone") || strings.Contains(k, "Cloner).Clone"))
+		return strings.HasPrefix(k, "dnsmsg.(*") && (strings.Contains(k, "Cloner).clone") || strings.Contains(k, "Cloner).Clone") || strings.Contains(k, "Cloner).append"))
 	}); n < 3 {
 		c.Und("C12-R17", "clone functions of dnsmsg", token.NoPos, "only %d reference values stored by clone functions found", n)
 	}
@@ -1004,4 +1007,41 @@ func c12ClearAfterReset(c *an.Ctx, rule string) {
 	})
 	c.Check(!leak, rule, key, reset.Pos(), "Clear lies on every path from a successful Reset to a return",
 		"a path returns after Storage.Reset has succeeded (the new hash set is already in use) without clearing the result cache: hosts that were cached keep the old list's verdict, the others get the new one")
+}
+
+// c12InstallsAsGiven: resetRuleLists is the publication step of a rule-list
+// refresh.  It stores its parameter into Default.ruleLists; it neither loads the
+// field (to compare with or keep previous lists) nor updates the parameter map.
+func c12InstallsAsGiven(c *an.Ctx, rule string) {
+	k := "filter/filterstorage.(*Default).resetRuleLists"
+	fn := c.Prog.Fn(k)
+	key := k + " installs the new lists without looking at the old ones"
+	if fn == nil {
+		c.Und(rule, key, token.NoPos, "anchor not found")
+		return
+	}
+	c.Analysed(k)
+	stored, bad := false, ""
+	an.Instrs(fn, func(in ssa.Instruction) {
+		switch x := in.(type) {
+		case *ssa.Store:
+			if _, f, _, ok := an.FieldOf(x.Addr); ok && f == "ruleLists" {
+				if pa, isPa := x.Val.(*ssa.Parameter); isPa && pa == fn.Params[1] {
+					stored = true
+				} else {
+					bad = "the value stored into ruleLists at " + c.Pos(x.Pos()) + " is not the parameter itself"
+				}
+			}
+		case *ssa.UnOp:
+			if x.Op == token.MUL {
+				if _, f, _, ok := an.FieldOf(x.X); ok && f == "ruleLists" {
+					bad = "the map being replaced is read at " + c.Pos(x.Pos())
+				}
+			}
+		case *ssa.MapUpdate:
+			bad = "a map is updated at " + c.Pos(x.Pos())
+		}
+	})
+	c.Check(stored && bad == "", rule, key, fn.Pos(), "one store of the parameter, no read of the old map",
+		bad+": a list object of the previous refresh (with its old engine and its old result cache) can survive the publication of a new version")
 }
